@@ -39,6 +39,11 @@ impl ChildOut {
         })
     }
     pub fn harness_error(&self) -> Option<String> {
+        // whatever a child does after an error or kill was injected into one of its system calls
+        // (including the harness's own file accesses inside it) is the injection's doing
+        if matches!(self.fault_fired(), Some((k, _, _)) if k.starts_with("sys-")) && !matches!(self.exit, Exit::SpawnFailed { .. }) {
+            return None;
+        }
         match &self.exit {
             Exit::TimedOut => return Some("child watchdog".into()),
             Exit::SpawnFailed { why } => return Some(format!("spawn failed: {why}")),
@@ -195,7 +200,12 @@ impl Launcher {
             // the injector is outside the child: record whether it fired from strace's own log
             let text = std::fs::read_to_string(&strace_out).unwrap_or_default();
             let _ = std::fs::remove_file(&strace_out);
-            let injected = text.contains("(INJECTED)") || text.contains("+++ killed by SIGKILL +++");
+            if text.is_empty() && events.is_empty() {
+                // the tracer could not run the child at all
+                events.push(Event::HarnessError { what: format!("strace could not run the child: {}", stderr.lines().next().unwrap_or("")) });
+            }
+            // a child that died before writing its first event was hit during program start-up
+            let injected = text.contains("(INJECTED)") || text.contains("+++ killed by SIGKILL +++") || (!text.is_empty() && events.is_empty());
             if injected {
                 let kind = if errno.is_some() { "sys-error" } else { "sys-kill" };
                 events.push(Event::FaultFired { kind: kind.into(), point: format!("{call}{}", errno.as_ref().map(|e| format!(":{e}")).unwrap_or_default()), k: *when });
